@@ -58,6 +58,25 @@ def term_cases(tier, seed0):
                                           "policy": "on_t_sample"}}
 
 
+def extinction_cases(tier, seed0):
+    """Gillespie/tau-leap runs that end because nothing can happen any more (total propensity 0), then empty batches."""
+    seeds = list(range(1000 * seed0, 1000 * seed0 + (2 if tier == "quick" else 8)))
+    for engine in ("gillespie", "tauleap"):
+        for gtype in ("grid", "graph"):
+            for st in ([2.0, 1.0], [0.0, 0.0], [1.0, 0.0, 2.0], [0.25, 0.25]):
+                n = len(st)
+                for sd in seeds:
+                    space = ({"type": "grid", "w": n, "h": 1, "d": 1, "vol": 1.0} if gtype == "grid" else
+                             {"type": "graph", "nodes": [{"vol": 1.0 + i, "env": 0} for i in range(n)],
+                              "edges": [[i, i + 1, 1.0, 1.0] for i in range(n - 1)]})
+                    spec = {"species": [{"label": "A", "D": 0.0}, {"label": "B", "D": 0.0}],
+                            "reactions": [{"eq": [[["A", 1]], [["B", 1]]], "kf": 2.0, "kr": 0.0}], "envs": [""],
+                            "space": space, "state": st + [0.0] * n}
+                    yield {"sub": "extinction", "engine": engine,
+                           "script": {"system": spec, "t_sample": [0], "time_step": 0.25, "seed": sd, "isp": "auto",
+                                      "policy": "on_iteration", "t_max": 1e6 if engine == "gillespie" else 1.0}}
+
+
 def step_cases():
     for engine in ("euler", "tauleap"):
         for gtype in ("grid", "graph"):
@@ -100,6 +119,11 @@ def check_simple(case):
         o2 = lc.observers(e)
         if r2 is not False or o2["t"] != o1["t"] or o2["data"] != o1["data"]:
             out.append(("%s:%s:iteration-after-completion-changes-output" % (PID, case["sub"]), ""))
+        for call, rz in (("iterate_n(0)", e.iterate_n(0)), ("iterate_n(2)", e.iterate_n(2)), ("run(0)", e.run(0))):
+            if rz is not False or not e.is_complete():
+                out.append(("%s:%s:completion-not-sticky:%s" % (PID, case["sub"], call.split("(")[0]),
+                            "%s on the completed simulation returned %r, is_complete() = %r" % (call, rz, e.is_complete())))
+                break
         e.finalize()
         e.finalize()
     except Exception as ex:
@@ -111,7 +135,7 @@ def check_simple(case):
 
 def check_case(case):
     """Replay entry: one history or one simple case."""
-    if case.get("sub") in ("termination", "steps"):
+    if case.get("sub") in ("termination", "steps", "extinction"):
         return check_simple(case)
     kinds = [tuple(k) for k in case["kinds"]]
     hist = [(h[0], int(h[1])) for h in case["history"].split(",")]
@@ -183,6 +207,10 @@ def build_jobs(tier, seed0, d1=None, d2=None, two=True):
     jobs += [("simple", c) for c in tc]
     subs.append(("termination catalogue: 9 real-valued states (sub-molecule, fractional, empty) x processing modes x engines x "
                  "{grid,graph} x seed window", len(tc), len(tc)))
+    exc = list(extinction_cases(tier, seed0))
+    jobs += [("simple", c) for c in exc]
+    subs.append(("extinction catalogue: stochastic runs ending by zero total propensity (4 states x 2 engines x {grid,graph} x seeds), "
+                 "then iterate / iterate_n(0) / iterate_n(2) / run(0) on the completed simulation", len(exc), len(exc)))
     stc = list(step_cases())
     jobs += [("simple", c) for c in stc]
     subs.append(("fixed-step completion count: 3 dt x 8 t_max x 2 engines x {grid,graph}", len(stc), len(stc)))
